@@ -285,9 +285,11 @@ func allChecks() []CheckSpec {
 				{Fn: "verifC03Controlling", Lemma: "controlling full agent: one authenticated Binding request or success response into the real handleInbound: selection invariant (selected => listed, Succeeded, nominated) preserved; a pair becomes Succeeded only on its own matched response (lite controlled: or on an authenticated nomination); controlling selects only on a matched response whose request carried USE-CANDIDATE; controlled selects on a request only with USE-CANDIDATE/nomination on that very pair and on a response only for a pair nominated earlier; a controlled agent never emits USE-CANDIDATE, a lite controlled agent never emits requests; plain USE-CANDIDATE never lowers the selected priority when priorities are checked",
 					Bounds: "2 local + 1 remote UDP candidates, symbolic pair states/flags, candidate priorities 1..256, selection nil or any pair, 0..1 (thorough 0..2) outstanding transactions, nomination attribute absent/valid(/short in thorough)", MustReach: []string{"pair-became-succeeded", "selection-changed", "controlling-selected", "done"}},
 				{Fn: "verifC03Controlled", Lemma: "controlled full agent: same lemma set",
-					Bounds: "as verifC03Controlling", MustReach: []string{"pair-became-succeeded", "selection-changed", "controlled-selected-on-request", "controlled-selected-on-response", "plain-nomination-switch", "done"}},
+					Bounds: "as verifC03Controlling", MustReach: []string{"pair-became-succeeded", "selection-changed", "controlled-selected-on-request", "controlled-selected-on-response", "plain-nomination-switch", "nomination-deferred", "done"}},
 				{Fn: "verifC03Lite", Lemma: "lite agent (both roles, with and without the priority-check flag): same lemma set",
 					Bounds: "1 (thorough 2) local + 1 remote, 0..1 outstanding transaction", MustReach: []string{"pair-became-succeeded", "selection-changed", "done"}},
+				{Fn: "verifC03DeferredPlain", Lemma: "two steps, controlled full agent (with or without an earlier accepted renomination): a plain USE-CANDIDATE on a not-yet-valid lower-priority pair, then its matched response: the selection stays on the higher-priority pair",
+					Bounds: "2 pairs, priorities 1..256, stored renomination value any 24 bits or absent", MustReach: []string{"after-renomination", "done"}},
 				{Fn: "verifC03Tick", Lemma: "one ContactCandidates tick: never changes the selection, preserves the invariant, USE-CANDIDATE only from a controlling agent on a Succeeded pair, lite controlled emits no request, recorded transaction flags equal the datagram's",
 					Bounds: "2 local + 1 remote, full and lite, both roles, symbolic pair states and request counts", MustReach: []string{"nomination-sent", "done"}},
 			},
